@@ -305,26 +305,79 @@ fn gen(r: &mut Rng, tier: Tier) -> Vec<Case> {
         let mut nheads = 0;
         let mut break_in_section = false;
         let mut open_section = false;
-        let style = r.below(4);
+        // styles 0-3: as described at `heading_here`; 4 = a SKIPPED level (H1, then two H3 siblings,
+        // an H2 elsewhere on the same page so that 14 pt ranks third); 5 = a page OPENING with two
+        // deep siblings (H2/H3) and a higher heading further down the same page
+        let style = r.below(6);
+        let special_page = r.below(npages as u64) as usize;
+        let mut skipped = false;
         let mut last_level = 0u64; // level of the immediately preceding heading item (0 = not a heading)
         for p in 0..npages {
-            let nitems = match r.below(8) {
-                0 => 0,
-                _ => 1 + r.below(9) as usize,
-            };
-            let mut items: Vec<String> = vec![];
-            for j in 0..nitems {
-                id += 1;
-                let heading_here = match style {
-                    0 => j == 0,                // every page starts with a heading
-                    1 => r.chance(1, 3),        // headings anywhere: page breaks inside sections
-                    2 => p == 0 && j == 0,      // one heading, then the section runs over pages
-                    _ => r.chance(1, 5),
+            // plan of the page: 0 = body item, 1..3 = heading of that level
+            let mut plan: Vec<u64> = vec![];
+            if style >= 4 && p == special_page {
+                let body = |r: &mut Rng, plan: &mut Vec<u64>| {
+                    for _ in 0..(1 + r.below(2)) {
+                        plan.push(0);
+                    }
                 };
-                if heading_here {
+                if style == 4 {
+                    let h2_first = r.chance(1, 2);
+                    if h2_first {
+                        plan.push(2);
+                        body(r, &mut plan);
+                    }
+                    plan.push(1);
+                    if r.chance(1, 2) {
+                        body(r, &mut plan);
+                    }
+                    for _ in 0..(2 + r.below(2)) {
+                        plan.push(3);
+                        body(r, &mut plan);
+                    }
+                    if !h2_first || r.chance(1, 3) {
+                        plan.push(2);
+                        body(r, &mut plan);
+                    }
+                } else {
+                    let deep = 2 + r.below(2);
+                    if r.chance(1, 3) {
+                        body(r, &mut plan);
+                    }
+                    for _ in 0..(2 + r.below(2)) {
+                        plan.push(deep);
+                        body(r, &mut plan);
+                    }
+                    plan.push(1);
+                    body(r, &mut plan);
+                    if deep == 3 || r.chance(1, 3) {
+                        plan.push(2);
+                        body(r, &mut plan);
+                    }
+                }
+                skipped = true;
+            } else {
+                let nitems = match r.below(8) {
+                    0 => 0,
+                    _ => 1 + r.below(9) as usize,
+                };
+                for j in 0..nitems {
+                    let heading_here = match style {
+                        0 => j == 0,           // every page starts with a heading
+                        1 | 4 => r.chance(1, 3), // headings anywhere: page breaks inside sections
+                        2 => p == 0 && j == 0, // one heading, then the section runs over pages
+                        _ => r.chance(1, 5),
+                    };
+                    plan.push(if heading_here { 1 + r.below(3) } else { 0 });
+                }
+            }
+            let mut items: Vec<String> = vec![];
+            for (j, &want) in plan.iter().enumerate() {
+                id += 1;
+                if want > 0 {
                     // two directly adjacent headings of the same size are one two-line heading to the
                     // extractor: keep adjacent headings at different levels
-                    let mut level = 1 + r.below(3);
+                    let mut level = want;
                     if level == last_level {
                         level = 1 + (level % 3);
                     }
@@ -360,12 +413,13 @@ fn gen(r: &mut Rng, tier: Tier) -> Vec<Case> {
         let req = format!("doc {} {} {} {} {} {} {}", max, merge, prop, policy, ctx, src, pages.join("/"));
         let nt = npages >= 2 && nheads >= 1 && id >= 3;
         let tags = format!(
-            "pages{} heads{} ctx-{} src{} {}{}",
+            "pages{} heads{} ctx-{} src{} {}{}{}",
             npages,
             if nheads == 0 { "0" } else if nheads <= 2 { "1-2" } else { "3+" },
             ctx,
             src,
             if break_in_section { "break-in-section " } else { "" },
+            if skipped { "skipped-level " } else { "" },
             if nt { "nt" } else { "" }
         );
         cases.push(Case::new(req, tags));
